@@ -597,3 +597,32 @@ def play(props=None):
                            z3.Or(z3.And(z3.BoolVal(out[0] == 'raise'), oc[1] == out[1]) if out[0] == 'raise' else z3.BoolVal(False),
                                  TYP(Val.addr(oc[1])) == K('KeyError'), TYP(Val.addr(oc[1])) == K('RecordingKeyError')), oc))
     return finish(ex, paths, obl, info, fr=fr)
+
+
+# ------------------------------------------------------------------ C04 (ii): statement-level interference (thorough tier)
+INTERFERE_IN = ('_execute_func_and_record_interception', '_record_output', '_record_data', '_assert_recording', 'discard_recording', 'decorated_function')
+
+
+def w_in_recording_interference(props=None, case=None):
+    """the input wrapper in recording mode where, between ANY two statements of the wrapper / EFRI / _record_output / _record_data / discard_recording,
+    other threads may run any number of complete public recorder calls (the rely): all statement-level interleavings, unbounded in number"""
+    obl = []
+    repo, spec, ex, st, selfv, fr, node, info = w_in_state('recording', case, obl, props)
+
+    def interfere(ex_, s, stmt):
+        fn = s.ctx[2]
+        if fn is not None and getattr(fn, 'name', '') in INTERFERE_IN:
+            d = spec.rely(s); s.trace.append(dict(kind='Thread', name='other-thread@line%d' % stmt.lineno, outcome=('ret', NONE), disc=d))
+    ex.interfere = interfere
+    paths = norm(ex.block(node.body, st)); U = 'W_in.recording.interference'
+    for s, oc in paths:
+        tmp = []; transparency(tmp, U, s, oc, fr, props=('C04',))
+        # known finding C04-cross-thread-discard-window: the clauses are required when no other thread discards between two statements of this
+        # activation; the excluded case has its own (witness) obligations
+        tds = [t['disc'] for t in s.trace if t['kind'] == 'Thread']
+        tdisc = z3.Or(*tds) if tds else z3.BoolVal(False)
+        for o in tmp:
+            obl.append(Obl(o.name, 'C04', s, z3.Implies(z3.Not(tdisc), o.clause), oc, z3_timeout_ms=15000, exploratory=True))
+            obl.append(Obl(o.name + '[other thread discards between two statements]', 'C04', s, z3.Implies(tdisc, o.clause), oc,
+                           finding='C04-cross-thread-discard-window', z3_timeout_ms=15000, exploratory=True))
+    return finish(ex, paths, obl, info, fr=fr)
